@@ -575,6 +575,14 @@ FOREIGN = ["mV", "ms", "kHz", "mmol"]         # atomic units used to break conve
 FOREIGN_CLASS = {"mV": "V", "ms": "s", "kHz": "Hz", "mmol": "mol"}
 
 
+def case_twin(u):
+    """second <-> siemens: the one pair of SI base symbols that differ by case alone (ms / mS are not convertible)"""
+    p = units_ref.parse(u) if u else None
+    if p and p[1] in ("s", "S") and not p[2]:
+        return p[0] + ("S" if p[1] == "s" else "s")
+    return None
+
+
 def _incr(n, start=0.5, step=1.5):
     return [start + step * i for i in range(n)]
 
@@ -666,6 +674,8 @@ def enumerate_injections(model):
                     cands += [u for u in FOREIGN if FOREIGN_CLASS[u] != _base_of(cur)][:2]
                     if j % 2:
                         cands = NON_SI_AXIS[1:] + cands[1:]
+                    if case_twin(cur):
+                        cands.append(case_twin(cur))
                     for u in cands:
                         if (u or "") != cur:
                             out.append(dict(base, kind="axis-unit", j=j, unit=u))
@@ -689,6 +699,8 @@ def enumerate_injections(model):
                         variants.append(units[:i] + [forg[i % len(forg)]] + units[i + 1:])
                         if u:
                             variants.append(units[:i] + [""] + units[i + 1:])
+                        if case_twin(u):
+                            variants.append(units[:i] + [case_twin(u)] + units[i + 1:])
                 variants.append(units + [""])
                 variants.append(units + ["ms"])
                 for v in variants:
